@@ -285,7 +285,12 @@ def build(cx, kind, r, sim_pairs, ch_pairs, route):
 def judge(cx, kind, ver, r, s, igns, simv, chv, sim_dbpm, ch_dbpm, route=0, none_form=0, sim_absent=(), do_td=True, labels=None):
     """Evaluate one configuration (for each ignore value in igns). Returns number of oracle evaluations."""
     sim_pairs, ch_pairs = plan(kind, ver, r, s, simv, chv, sim_dbpm, ch_dbpm, sim_absent)
-    sim, chart = build(cx, kind, r, sim_pairs, ch_pairs, route)
+    # an SM simfile may spell its stops FREEZES (the documented legacy alias of STOPS): every other SM configuration does
+    legacy = kind == 0 and (s + r + ver + route) % 2 == 1
+    real_pairs = [("FREEZES" if (legacy and k == "STOPS") else k, v) for k, v in sim_pairs]
+    sim, chart = build(cx, kind, r, real_pairs, ch_pairs, route)
+    if legacy and labels is not None and any(k == "STOPS" for k, _ in sim_pairs):
+        labels.append("sm-stops-spelled-FREEZES")
 
     # ---- the rule, over the configuration data only
     use_chart = (
@@ -573,18 +578,30 @@ def _index(draw):
 PER_CASE = 3  # configuration indices per sampled case (they share one set of random values)
 
 
+def negate_one(list_text, x):
+    """BPMS values are signed numbers (negative BPMs exist in real files): put a minus sign on one value, 1 time in 3"""
+    if x % 3:
+        return list_text
+    seps = [sp for sp in SEPS if sp in list_text] or [","]
+    rows = list_text.split(seps[0])
+    i = (x // 3) % len(rows)
+    b, v = rows[i].split("=")
+    rows[i] = b + "=-" + v
+    return seps[0].join(rows)
+
+
 @st.composite
 def s_one(draw):
     ws = [draw(_index()) for _ in range(PER_CASE)]
     sim = {
-        "BPMS": timing_list_from(draw(BIG), 100, 500, 4),
+        "BPMS": negate_one(timing_list_from(draw(BIG), 100, 500, 4), draw(st.integers(0, 11))),
         "STOPS": timing_list_from(draw(BIG), 1, 5, 2),
         "DELAYS": timing_list_from(draw(BIG), 1, 5, 2),
         "WARPS": timing_list_from(draw(BIG), 1, 5, 2),
         "OFFSET": draw(st.integers(1, 99999).map(lambda n: f"{n // 1000}.{n % 1000:03d}")),
     }
     chart = {
-        "BPMS": timing_list_from(draw(BIG), 500, 1000, 4),
+        "BPMS": negate_one(timing_list_from(draw(BIG), 500, 1000, 4), draw(st.integers(0, 11))),
         "STOPS": timing_list_from(draw(BIG), 5, 10, 2),
         "DELAYS": timing_list_from(draw(BIG), 5, 10, 2),
         "WARPS": timing_list_from(draw(BIG), 5, 10, 2),
